@@ -17,3 +17,18 @@ Theorem C03_walk_is_pruned_preorder :
   forall ls mind maxd root, walk mind maxd ls root = walk_spec mind maxd ls root.
 Proof. exact walk_refines. Qed.
 Print Assumptions C03_walk_is_pruned_preorder.
+
+(* the statement at the level of what the walk yields: for every tree, every underlying stack and every depth window, given
+   what an 'always exhaustive' verdict promises (beneath a path the exhaustive program matches, the negation matches
+   everything: C09), `not` yields exactly the entries of the underlying walk that the negation does not match - discarding
+   whole trees is indistinguishable from filtering each entry *)
+Theorem C03_not_is_a_filter :
+  forall ls exh nonexh,
+    (forall p r, opt_match exh (join_path p) = true -> matched exh nonexh (p ++ r) = true) ->
+    forall mind maxd root,
+      yields (walk mind maxd (ls ++ [nl exh nonexh]) root) =
+      filter (fun q => negb (matched exh nonexh q)) (yields (walk mind maxd ls root)).
+Proof.
+  intros ls exh nonexh H mind maxd root. rewrite !walk_refines. exact (not_walk_yields ls exh nonexh H mind maxd root 0 []).
+Qed.
+Print Assumptions C03_not_is_a_filter.
